@@ -79,32 +79,41 @@ def rule_r2(ctx):
         ctx.require(f is not None, f"DoublyLinkedSet.{name} not found")
         ys = [n for n in own_nodes(f.node) if isinstance(n, (ast.Yield, ast.YieldFrom))]
         ctx.require(bool(ys), f"{name}: no yield")
+        # the cursor is the variable the loop compares with the root sentinel
+        loops = [n for n in own_nodes(f.node) if isinstance(n, ast.While)]
+        cur = None
+        if len(loops) == 1:
+            t = loops[0].test
+            if isinstance(t, ast.Compare) and len(t.ops) == 1 and isinstance(t.ops[0], ast.IsNot) and isinstance(t.left, ast.Name) \
+                    and norm(t.comparators[0]) == "self._root":
+                cur = t.left.id
         for y in ys:
             guarded = False
             p = getattr(y, "_parent", None)
             child = y
             while p is not None and p is not f.node:
-                if isinstance(p, ast.If) and child in p.body:
+                if isinstance(p, ast.If) and child in p.body and cur is not None:
                     t = norm(p.test)
-                    if t in ("not box.erased", "box.value is not None"):
+                    if t in (f"not {cur}.erased", f"{cur}.value is not None"):
                         guarded = True
                 child = p
                 p = getattr(p, "_parent", None)
             ctx.check("R2", f"{name}: yield guarded by the erased test", guarded, f, y,
                       "a box is yielded without testing that it has not been erased: removed nodes can be yielded",
-                      how="control dependence of the yield on `not box.erased`")
-            ok = isinstance(y, ast.Yield) and norm(y.value) == "box.value"
-            ctx.check("R2", f"{name}: yields the box's own value", ok, f, y, "yield does not return box.value", nontrivial=False)
-        loops = [n for n in own_nodes(f.node) if isinstance(n, ast.While)]
-        ok = len(loops) == 1 and norm(loops[0].test) == "box is not self._root"
-        adv = [n for n in own_nodes(f.node) if isinstance(n, ast.Assign) and norm(n.targets[0]) == "box"]
-        init = [a for a in adv if norm(a.value) == f"self._root.{step}"]
-        stepw = [a for a in adv if norm(a.value) == f"box.{step}"]
-        ok = ok and len(init) == 1 and len(stepw) == 1 and len(adv) == 2
+                      how="control dependence of the yield on `not <cursor>.erased`", construct="yield not guarded by the erased test")
+            ok = isinstance(y, ast.Yield) and cur is not None and norm(y.value) == f"{cur}.value"
+            ctx.check("R2", f"{name}: yields the box's own value", ok, f, y, "yield does not return <cursor>.value", nontrivial=False,
+                      construct="yield is not the cursor's value")
+        ok = cur is not None
         if ok:
-            # the advance is the last statement of the loop body and unconditional
-            ok = loops[0].body[-1] is stepw[0] and not any(isinstance(n, (ast.Break, ast.Continue, ast.Return)) for n in ast.walk(loops[0]))
-        ctx.check("R2", f"{name}: cursor starts at root.{step}, advances by box.{step} unconditionally, stops at the root", ok, f, f.node,
+            adv = [n for n in own_nodes(f.node) if isinstance(n, ast.Assign) and norm(n.targets[0]) == cur]
+            init = [a for a in adv if norm(a.value) == f"self._root.{step}"]
+            stepw = [a for a in adv if norm(a.value) == f"{cur}.{step}"]
+            ok = len(init) == 1 and len(stepw) == 1 and len(adv) == 2
+            if ok:
+                # the advance is the last statement of the loop body and unconditional
+                ok = loops[0].body[-1] is stepw[0] and not any(isinstance(n, (ast.Break, ast.Continue, ast.Return)) for n in ast.walk(loops[0]))
+        ctx.check("R2", f"{name}: cursor starts at root.{step}, advances by its own .{step} unconditionally, stops at the root", ok, f, f.node,
                   "the cursor does not advance through the box's own link on every iteration, or the loop can stop early",
                   how="loop test, initialisation, single unconditional advance as last statement")
 
@@ -185,15 +194,22 @@ def rule_r3(ctx):
     ok = any("owning_list is not self" in g for g in guards) and any("new_value is None" in g for g in guards) and any("box.value is new_value" in g for g in guards)
     ctx.check("R3", "_insert_one_after: rejects None, foreign anchor boxes and self-insertion before linking", ok, ins, ins.node,
               "one of the entry guards of the insertion primitive is missing", how="guard texts", nontrivial=False)
-    # new box: prev/next wiring complete
+    # new box: prev/next wiring complete.  Roles are taken from the code: the anchor is the box parameter, the new box
+    # is the local bound to the _LinkBox constructor, the old successor the local bound to <anchor>.next
+    anchor = ins.params[1]
+    newb = [n.targets[0].id for n in own_nodes(ins.node) if isinstance(n, ast.Assign) and isinstance(n.targets[0], ast.Name)
+            and isinstance(n.value, ast.Call) and (dotted_of(n.value.func) or "").endswith("_LinkBox")]
+    on = [n for n in own_nodes(ins.node) if isinstance(n, ast.Assign) and isinstance(n.targets[0], ast.Name) and norm(n.value) == f"{anchor}.next"]
+    ok = len(newb) == 1 and len(on) == 1
     w4 = {(norm(w.recv), w.field, norm(w.stmt.value)) for w in field_writes(ins) if w.field in ("next", "prev") and w.kind == "store"}
-    ok = w4 == {("box", "next", "new_box"), ("new_box", "prev", "box"), ("new_box", "next", "original_next"), ("original_next", "prev", "new_box")}
-    on = [n for n in own_nodes(ins.node) if isinstance(n, ast.Assign) and norm(n.targets[0]) == "original_next"]
-    ok = ok and len(on) == 1 and norm(on[0].value) == "box.next"
     if ok:
-        ok = cfg.dominates(cfg.node_of(on[0])[0], cfg.node_of([w for w in field_writes(ins) if norm(w.recv) == "box" and w.field == "next"][0].stmt)[0])
+        nb, succ = newb[0], on[0].targets[0].id
+        ok = w4 == {(anchor, "next", nb), (nb, "prev", anchor), (nb, "next", succ), (succ, "prev", nb)}
+    if ok:
+        ok = cfg.dominates(cfg.node_of(on[0])[0], cfg.node_of([w for w in field_writes(ins) if norm(w.recv) == anchor and w.field == "next"][0].stmt)[0])
     ctx.check("R3", "_insert_one_after: four link writes splice the new box between box and its old successor", ok, ins, ins.node,
-              f"link writes are {sorted(w4)}", how="exact set of (receiver, field, value) link stores; successor captured first")
+              f"link writes are {sorted(w4)}", how="exact set of (receiver, field, value) link stores; successor captured first",
+              construct="splice link writes")
 
 
 def rule_r4(ctx):
